@@ -1,5 +1,6 @@
 import Driver.ArenaDrv
 import Driver.RustDrv
+import Driver.RawOps
 /-
   Line-protocol driver.  stdin: one operation per line, first word selects the
   machine (`A` arena, `R` Rust map, `P` Python map, `C` C extension);
@@ -25,6 +26,22 @@ def step (st : St) (line : String) : St × String :=
     | none => (st, "bad-op")
   | "cfg" :: _ => (st, "ok")
   | "R" :: ws => let r := rustStep st.rust ws; ({ st with rust := r.1 }, r.2)
+  | "X" :: ws =>
+    if st.rust.dead then (st, "dead") else
+    match ws with
+    | ["toraw"] =>
+      (match st.rust.view? with
+       | some m => ({ st with rust := { st.rust with raw := some m } }, "ok")
+       | none => (st, "bad-op"))
+    | "note" :: _ => (st, "ok")
+    | _ =>
+      match st.rust.raw with
+      | none => (st, "bad-op")
+      | some m =>
+        match rawStep m ws with
+        | some (some m', out) => ({ st with rust := { st.rust with raw := some m' } }, out)
+        | some (none, out) => ({ st with rust := { st.rust with dead := true } }, out)
+        | none => (st, "bad-op")
   | "A" :: ws =>
     match st.arena with
     | none => (st, "dead")
